@@ -181,6 +181,33 @@ func (p *Path) execFunction(fn *ssa.Function, args []Value, bind []Value) []Valu
 	block := fn.Blocks[0]
 	for {
 		var next *ssa.BasicBlock
+		// phi nodes of a block are one PARALLEL assignment: all of them read the values flowing in from the
+		// predecessor before any of them is written (a sequential evaluation mis-executes loop-carried swaps such as
+		// `parent, node = node, child`).
+		if _, ok := block.Instrs[0].(*ssa.Phi); ok && prev != nil {
+			pi := -1
+			for i, pred := range block.Preds {
+				if pred == prev {
+					pi = i
+					break
+				}
+			}
+			var phis []*ssa.Phi
+			var vals []Value
+			for _, ins := range block.Instrs {
+				ph, ok := ins.(*ssa.Phi)
+				if !ok {
+					break
+				}
+				if pi >= 0 {
+					phis = append(phis, ph)
+					vals = append(vals, p.get(fr, ph.Edges[pi]))
+				}
+			}
+			for i, ph := range phis {
+				fr.env[ph] = vals[i]
+			}
+		}
 		for _, ins := range block.Instrs {
 			p.steps++
 			if p.steps > maxSteps {
@@ -191,12 +218,7 @@ func (p *Path) execFunction(fn *ssa.Function, args []Value, bind []Value) []Valu
 			}
 			switch ins := ins.(type) {
 			case *ssa.Phi:
-				for i, pred := range block.Preds {
-					if pred == prev {
-						fr.env[ins] = p.get(fr, ins.Edges[i])
-						break
-					}
-				}
+				// assigned above, in parallel with the block's other phi nodes
 			case *ssa.Jump:
 				next = block.Succs[0]
 			case *ssa.If:
